@@ -81,7 +81,8 @@ inductive Req
   | marker                       -- bisync marker `SET <markerkey> … PX …`
   deriving DecidableEq, Repr
 
-inductive Outcome | ok | errExists | errModule
+/-- `errBad`: the target refused the payload inside the bidirectional unit's EXEC ("Bad data format") -/
+inductive Outcome | ok | errExists | errModule | errBad
   deriving DecidableEq, Repr
 
 /-- what `Replay` learns from the target about the entry's key: whether it
@@ -161,13 +162,16 @@ def replay (pol : Policy) (cfg : Cfg) (st : RState) (v : View) (e : Entry) : Lis
 
 /-! ### bidirectional builder -/
 
-inductive BOutcome | skip | unit | errExists | errModule
+inductive BOutcome | skip | unit | errExists | errModule | errBad
   deriving DecidableEq, Repr
 
 /-- `captureBisyncRdbExpandedCommands` -/
 def expandB (cfg : Cfg) (e : Entry) (hasKey : Bool) : List Req :=
   e.cmds.map (if hasKey then Req.data else Req.raw) ++
     (if e.expireAt ≠ 0 ∧ hasKey then [Req.pexpire e.key (ttlMs cfg.now e.expireAt)] else [])
+
+/-- `execBisyncRdbUnit`: marker and business commands in one transaction -/
+def execUnit (cmds : List Req) : List Req := Req.multi :: Req.marker :: cmds ++ [Req.exec]
 
 /-- `buildBisyncRdbReplayUnit` on a standalone target (no hashtag rewriting),
     REPAIRED behaviour for D21 (an entry is keyed by its kind, not by the length of its key).
@@ -185,7 +189,12 @@ def buildUnit (pol : Policy) (cfg : Cfg) (st : RState) (v : View) (e : Entry) :
       if pol = .ignore then (direct, [], .skip, if e.splited then some e.key else st1)
       else (direct, [], .errExists, st1)
     else
-      if hasKey && useRestore cfg e then
+      if hasKey && useRestore cfg e && v.badData then
+        -- the unit IS sent; the RESTORE's slot of the EXEC reply is "Bad data format": the
+        -- transaction batcher reports it, the replay fails, nothing is merged
+        (direct ++ execUnit [Req.restoreBad e.key (ttlMs cfg.now e.expireAt) e.dump (restoreOpts cfg e) (pol = .replace)],
+          [], .errBad, st1)
+      else if hasKey && useRestore cfg e then
         (direct, [Req.restore e.key (ttlMs cfg.now e.expireAt) e.dump (restoreOpts cfg e) (pol = .replace)], .unit, st1)
       else if hasKey && e.otype = .module then (direct, [], .errModule, st1)
       else
@@ -193,8 +202,6 @@ def buildUnit (pol : Policy) (cfg : Cfg) (st : RState) (v : View) (e : Entry) :
         let cmds := if hasKey && e.first && pol = .replace then Req.del e.key :: cmds else cmds
         if cmds = [] then (direct, [], .skip, st1) else (direct, cmds, .unit, st1)
 
-/-- `execBisyncRdbUnit`: marker and business commands in one transaction -/
-def execUnit (cmds : List Req) : List Req := Req.multi :: Req.marker :: cmds ++ [Req.exec]
 
 /-! ### target semantics for these requests -/
 
@@ -330,7 +337,7 @@ def runPlain (pol : Policy) (cfg : Cfg) : RState → Target → List Entry → R
     | o => { reqs := rs, out := o, st := st', tgt := t' }
 
 def bOut : BOutcome → Outcome
-  | .skip => .ok | .unit => .ok | .errExists => .errExists | .errModule => .errModule
+  | .skip => .ok | .unit => .ok | .errExists => .errExists | .errModule => .errModule | .errBad => .errBad
 
 /-- the same loop for the bidirectional builder + executor -/
 def runBisync (pol : Policy) (cfg : Cfg) : RState → Target → List Entry → Run
